@@ -370,6 +370,33 @@ def run_case(r, obs):
                            for c in combo) else "iterable-kinds"),
                           "Chain(%s)() = %r, itertools.chain gives %r" % (", ".join(combo), got, ref))
                 obs.count("chain_runs")
+        # a later argument that is filled while an earlier one is being read (values postponed
+        # into a deque / dict / list): iter() of it is taken when its turn comes
+        for kind in ("deque", "dict", "list", "set"):
+            def run(chain_of):
+                pending = {"deque": _coll.deque(), "dict": {}, "list": [], "set": set()}[kind]
+
+                def events():
+                    for i in range(5):
+                        if i % 2:
+                            if kind == "dict":
+                                pending[i] = None
+                            elif kind == "set":
+                                pending.add(i)
+                            else:
+                                pending.append(i)
+                        else:
+                            yield i
+                try:
+                    return list(chain_of(events(), pending))
+                except Exception as e:  # pylint: disable=broad-except
+                    return "raised %r" % (e,)
+            got = run(lambda *its: lena.flow.Chain(*its)())
+            ref = run(itertools.chain)
+            obs.count("chain_runs")
+            obs.check(got == ref, "chain-differs:later-argument-filled-while-an-earlier-is-read",
+                      "Chain(events(), pending %s)() = %r, itertools.chain gives %r"
+                      % (kind, got, ref))
         # a result abandoned half-way: like itertools.chain, Chain does not touch its inputs
         # beyond what it was asked for (a generator given to it can be read on afterwards)
         for take in range(0, 6):
